@@ -808,7 +808,7 @@ def _whichdo_failures():
     env['PATH'] = bindir + ':' + env.get('PATH', '')
     work = tempfile.mkdtemp(prefix='redo-verif-wd.', dir='/var/tmp')
     fails, n = [], 0
-    names = ['a.b.c', 'noext', '.hidden', 'a..b', 'a.b.', '\u00e9a.b', '\u00f1.tar.gz', 'a\u00e9.b', 'x.\u00e9', '\u65e5\u672c.\u8a9e.txt', '\u00fc', 'a.\u00e9\u00e9.c', '\U0001f600.o', 'k\u0308.d.e']
+    names = ['a.b.c', 'noext', '.hidden', 'a..b', 'a.b.', '\u00e9a.b', '\u00f1.tar.gz', 'a\u00e9.b', 'x.\u00e9', '\u65e5\u672c.\u8a9e.txt', '\u00fc', 'a.\u00e9\u00e9.c', '\U0001f600.o', 'k\u0308.d.e', 'default.css', 'default.min.js', 'default']
     try:
         proj = os.path.join(os.path.realpath(work), 'p')
         depth = len([c for c in proj.split('/') if c])
@@ -841,6 +841,8 @@ def _whichdo_failures():
                     r = subprocess.run(['redo', '--no-log', t], cwd=proj, env=env, capture_output=True, text=True, timeout=60)
                     got2 = open(os.path.join(proj, t)).read().strip() if os.path.exists(os.path.join(proj, t)) else None
                     want2 = '%s|%s' % (t, t[:len(t) - len(e)])
+                    if not dparts and name == 'default' + e:
+                        want2 = '%s|%s' % (t, t)   # here default<ext>.do IS <name>.do, the first candidate: $2 == $1
                     if r.returncode != 0 or got2 != want2:
                         fails.append(dict(input='default%s.do at the top; redo %s' % (e, t), label='args.dollar2',
                                           observed='exit %d; $1|$2 seen: %r, expected %r; %s' % (r.returncode, got2, want2, r.stderr.strip()[-160:]),
@@ -1461,7 +1463,7 @@ def bounded(prop, unit_names, labels_props):
         if r is None:
             notes.append('bounded probe whichdo: could not be built or run (nothing concluded from it)')
         else:
-            notes.append('bounded probe whichdo: %d inputs on the real binaries (14 names incl. non-ASCII ones x 3 directories: candidate list of redo-whichdo and $1 $2 against an independent reference), %d failure(s) [bounded, not counted as proved]' % (r[1], len(r[0])))
+            notes.append('bounded probe whichdo: %d inputs on the real binaries (17 names incl. non-ASCII ones and names that begin with `default` x 3 directories: candidate list of redo-whichdo and $1 $2 against an independent reference), %d failure(s) [bounded, not counted as proved]' % (r[1], len(r[0])))
             by = {}
             for h in r[0]:
                 by.setdefault(h['label'], []).append(h)
